@@ -35,3 +35,40 @@ Definition instance_of (host : hostg) (rc : its) (g : its) : Prop :=
        changed_bonds g = changed_bonds T ++ new_bond_keys (N.succ (max_id T)) ms /\
        forall sd, In sd ms -> same_group T (fst sd) (snd sd) /\ 0 < dl_of T (fst sd) /\ dl_of T (snd sd) < 0).
 
+(** the matcher's contract instead of [match_rcb]: the reactor hands the rule's LEFT graph l (after h_to_implicit when it
+    keeps X-H hydrogens) to SubgraphSearchEngine, whose answers satisfy [match_okb] on that pattern (property C06).
+    [left_of_rcb rc l]: l is the reactant side of rc as far as matching is concerned — same number of atoms, every rc atom
+    is an l atom with the same element / charge / hydrogen count, every reactant-side bond of rc is a bond of l.
+    [call_okm]: the matcher's answers for one kept mapping satisfy its contract on l (direct route: the mapping on the
+    substrate; expanded route: every re-match on the well-formed hydrogen-expanded substrate). *)
+Definition node_same (l : molg) (p : N * inode) : bool :=
+  match label l (fst p) with
+  | Some la => N.eqb (m_el la) (a_el (iG (snd p))) && Z.eqb (m_ch la) (a_ch (iG (snd p))) && Z.eqb (m_hc la) (a_hc (iG (snd p)))
+  | None => false
+  end.
+Definition edge_same (l : molg) (e : N * N * iedge) : bool :=
+  if 0 <? eG (snd e)
+  then existsb (fun f : N * N * Z => peq (fst (fst f)) (snd (fst f)) (fst (fst e)) (snd (fst e)) && Z.eqb (snd f) (eG (snd e))) (gedges l)
+  else true.
+Definition left_of_rcb (rc : its) (l : molg) : bool :=
+  (length (gnodes l) =? length (gnodes rc))%nat && forallb (node_same l) (gnodes rc) && forallb (edge_same l) (gedges rc).
+Definition call_okm (host : hostg) (l : molg) (c : call) : bool :=
+  if has_XH l then
+    match snd c with
+    | Some rs => let hb := h_to_explicit host (map snd (fst c)) in wf_hostb hb && forallb (match_okb hb l) rs
+    | None => true
+    end
+  else match_okb host l (fst c).
+(** all hypotheses of C03_its_list_instances_matcher on one reactor, as one boolean (evaluated on every scripted case) *)
+Definition matcher_hyps_okb (rule : option triple) (host : hostg) (calls : list call) : bool :=
+  match rule with
+  | Some (rc, l, _) => wf_hostb host && wf_rcb rc && edges_closedb rc && left_of_rcb rc l && forallb (call_okm host l) calls
+  | None => true
+  end.
+(** the part of it that concerns the prepared rule alone (evaluated on EVERY correspondence case) *)
+Definition rule_link_okb (rule : option triple) : bool :=
+  match rule with
+  | Some (rc, l, _) => edges_closedb rc && left_of_rcb rc l
+  | None => true
+  end.
+
